@@ -96,6 +96,13 @@ RadioTap::RadioTap(const uint8_t* buffer, uint32_t total_sz) {
     input.skip(radiotap_size);
 
     total_sz = input.size();
+    // Every field announced by the present flags has to fit into the options:
+    // the setters edit them in place later on
+    RadioTapParser validator(options_payload_);
+    while (validator.has_fields()) {
+        validator.current_option();
+        validator.advance_field();
+    }
     RadioTapParser parser(options_payload_);
     if (parser.skip_to_field(FLAGS)) {
         const uint8_t flags_value = *parser.current_option_ptr();
